@@ -8,7 +8,7 @@ MutKinds == {"Put", "Delete"}   \* model checking: the laws are invariants, read
 (* alphabet "short": shared nibble prefixes, a key that is a prefix of     *)
 (* others, prefixes ending in a zero nibble (0x10, 0x1201 0x00), a prefix  *)
 (* equal to a key, longer than every key, matching nothing                 *)
-SKeys == { <<16>>, <<16, 0>>, <<18>>, <<18, 1>>, <<18, 2>>, <<31>>, <<32>>, <<18, 83>>, <<18, 84>>, <<255>> }
+SKeys == { <<>>, <<16>>, <<16, 0>>, <<18>>, <<18, 1>>, <<18, 2>>, <<31>>, <<32>>, <<18, 83>>, <<18, 84>>, <<255>> }
 SVals == { <<>>, <<1>>, <<2>>, Rep(33, 9) }
 SPrefixes == { <<>>, <<1>>, <<16>>, <<18>>, <<18, 1>>, <<48>>, <<18, 1, 0>>, <<19>>, <<18, 80>>, <<18, 85>>, <<17, 83>>, <<32>>, <<255>> }
 SAfter == SKeys \cup { <<>>, <<17>>, <<18, 1, 5>>, <<255, 255>> }
